@@ -83,7 +83,7 @@ structure SInv (S : LayerSet) : Prop where
 /-- contract of the layer file-name function: not taken, and never the default directory
     (C07: the result starts with `glyphs.`) -/
 def AssignLOK : Prop :=
-  AssignOK lower assignL ∧ ∀ n ps p, assignL n ps = some p → p ≠ glyphsDir
+  AssignOK lower assignL ∧ ∀ n ps p, valid n = true → assignL n ps = some p → p ≠ glyphsDir
 
 theorem sinv_default : SInv lower LayerSet.default := by
   refine ⟨⟨Layer.default, [], rfl, rfl⟩, ?_, ?_, ?_, ?_, ?_, ?_⟩ <;>
@@ -159,20 +159,21 @@ theorem sinv_onLayer (S : LayerSet) (li : Nat) (f : Layer → Layer × Res) (h :
 
 /-! ### set-level operations -/
 
-theorem sinv_newLayer (hA : AssignLOK lower assignL) (S : LayerSet) (n : Str) (h : SInv lower S) :
+theorem sinv_newLayer (hA : AssignLOK lower assignL valid) (S : LayerSet) (n : Str) (h : SInv lower S) :
     SInv lower (newLayer lower assignL valid S n).1 := by
   unfold newLayer
   split; · exact h
   split; · exact h
   split; · exact h
-  rename_i hres hdup _
+  rename_i hres hdup hval
+  have hvalid : valid n = true := by simpa using hval
   cases ha : assignL n S.pathSet with
   | none => exact h
   | some p =>
     simp only
     obtain ⟨d, rest, hdr, hd⟩ := h.headDefault
     have hp := hA.1 n S.pathSet p ha
-    have hpd := hA.2 n S.pathSet p ha
+    have hpd := hA.2 n S.pathSet p hvalid ha
     have htail : (S.layers ++ [Layer.new n p]).tail = S.layers.tail ++ [Layer.new n p] := by
       rw [hdr]; rfl
     refine ⟨⟨d, rest ++ [Layer.new n p], by simp [hdr], hd⟩, ?_, ?_, ?_, ?_, ?_, ?_⟩
@@ -216,7 +217,7 @@ theorem sinv_newLayer (hA : AssignLOK lower assignL) (S : LayerSet) (n : Str) (h
       · exact h.layersInv l hl
       · exact linvw_new lower n p
 
-theorem sinv_getOrCreate (hA : AssignLOK lower assignL) (S : LayerSet) (n : Str) (h : SInv lower S) :
+theorem sinv_getOrCreate (hA : AssignLOK lower assignL valid) (S : LayerSet) (n : Str) (h : SInv lower S) :
     SInv lower (getOrCreateLayer lower assignL valid S n).1 := by
   unfold getOrCreateLayer
   split
@@ -391,7 +392,7 @@ theorem getLayer_some_mem {S : LayerSet} {n : Str} (h : ¬ (getLayer S n).isNone
     have := List.find?_some hg
     exact ⟨x, List.mem_of_find?_eq_some hg, by simpa using this⟩
 
-theorem sinv_renameLayer (hA : AssignLOK lower assignL) (S : LayerSet) (old new : Str) (ow : Bool)
+theorem sinv_renameLayer (hA : AssignLOK lower assignL valid) (S : LayerSet) (old new : Str) (ow : Bool)
     (h : SInv lower S) : SInv lower (renameLayer lower assignL valid S old new ow).1 := by
   unfold renameLayer
   split; · exact h
@@ -403,6 +404,8 @@ theorem sinv_renameLayer (hA : AssignLOK lower assignL) (S : LayerSet) (old new 
   split; · exact h
   rename_i g4
   split; · exact h
+  rename_i g5
+  have hvalid : valid new = true := by simpa using g5
   -- the state after the optional removal of the layer being overwritten
   have hS₁ : SInv lower (if (ow && decide (old ≠ new)) = true then removeLayer lower S new else S) := by
     split
@@ -487,7 +490,7 @@ theorem sinv_renameLayer (hA : AssignLOK lower assignL) (S : LayerSet) (old new 
         rw [renameAt_split old new (some p) a b l hln han]
         simp only
         have hp := hA.1 new _ p hassign
-        have hpd := hA.2 new _ p hassign
+        have hpd := hA.2 new _ p hvalid hassign
         have hdist := hS₁.tailDistinct
         simp only [List.tail_cons, List.map_append, List.map_cons] at hdist
         have hnotl : ∀ x, x ∈ a ∨ x ∈ b → lower x.path ≠ lower l.path := by
